@@ -89,6 +89,7 @@ mutual
     | .append x e => simp [desugarS, execS, desugarE_sound]
     | .ret e => simp [desugarS, execS, desugarE_sound]
     | .print e => simp [desugarS, execS, desugarE_sound]
+    | .print2 a b => simp [desugarS, execS, desugarE_sound]
     | .exprS e => simp [desugarS, execS, desugarE_sound]
     | .brk => simp [desugarS]
     | .cont => simp [desugarS]
@@ -123,7 +124,7 @@ mutual
   /-- The restructured program only uses the core constructs (nested if/else, plain assignment). -/
   theorem desugarS_core (s : S) : coreS (desugarS s) = true := by
     match s with
-    | .letS _ _ _ | .assign _ _ | .aug _ _ _ | .append _ _ | .ret _ | .print _ | .exprS _ | .brk | .cont => simp [desugarS, coreS]
+    | .letS _ _ _ | .assign _ _ | .aug _ _ _ | .append _ _ | .ret _ | .print _ | .print2 _ _ | .exprS _ | .brk | .cont => simp [desugarS, coreS]
     | .ifS c thn els => simp [desugarS, coreS, desugarB_core thn, desugarElse_core els]
     | .whileS c body => simp [desugarS, coreS, desugarB_core body]
     | .forRange x lo hi body => simp [desugarS, coreS, desugarB_core body]
